@@ -328,13 +328,16 @@ def _collect_definitions(
     return schema_definition, types, directives
 
 
-def _document_ast(document: Union[str, _ast.Document]) -> _ast.Document:
-    if isinstance(document, str):
+def _document_ast(
+    document: Union[str, bytes, _ast.Document]
+) -> _ast.Document:
+    # bytes is a source form the parser accepts everywhere else.
+    if isinstance(document, (str, bytes)):
         return parse(document, allow_type_system=True)
     elif isinstance(document, _ast.Document):
         return document
     else:
-        TypeError("Expected Document but got %s" % type(document))
+        raise TypeError("Expected Document but got %s" % type(document))
 
 
 def _collect_extensions(  # noqa: C901
